@@ -287,12 +287,18 @@ def rule_d(F):
     return res
 
 
+def _c05_rule_m(F):
+    from rules import c05 as _c05
+    return _c05.rule_m(F)
+
+
 def _c05_rule_a(F):
     from rules import c05 as _c05
     return _c05.rule_a(F)
 
 
 RULES = [
+    Rule("C17.M", shared(_c05_rule_m, "C05.M", "C17.M"), 2, "a VM whose limit was changed collects and accounts like a new VM with that limit (shared with C05.M)"),
     Rule("C17.A", shared(_c05_rule_a, "C05.A", "C17.A"), 5, "accounted memory is a running balance moved only by alloc / dealloc: clear() may not overwrite it (shared with C05.A)"),
     Rule("C17.C", rule_c, 6, "clear (or the start of run) resets every field a run can write"),
     Rule("C17.E", rule_e, 4, "what clear does to each field restores the fresh state"),
